@@ -150,7 +150,7 @@ func (c *poolBinComp) signed(who *identity, id int, method string, req interface
 }
 
 func (c *poolBinComp) post(body []byte) (map[string]json.RawMessage, error) {
-	resp, err := http.Post("http://"+c.addr+"/", "application/json", bytes.NewReader(body))
+	resp, err := (&http.Client{Timeout: 12 * time.Second}).Post("http://"+c.addr+"/", "application/json", bytes.NewReader(body))
 	if err != nil {
 		return nil, err
 	}
@@ -241,6 +241,65 @@ func (c *poolBinComp) Exec(t []string) (extra []string, out string, eff bool) {
 				return nil, "err InvalidSettings", false
 			}
 			return nil, "err " + strings.Replace(canon(msg), " ", "_", -1), false
+		}
+		return nil, "ok", true
+	case "kbillhangup":
+		// kbillhangup <client> <host>: the billable keep-alive as in kbill, but the client closes its connection as
+		// soon as the request is out and never reads the reply.  The pool handles the request all the same: a client
+		// cut off for its balance is reported to the hosts peering with it.
+		who, host := identByName[t[1]], identByName[t[2]]
+		for _, bc := range c.conns {
+			bc.mu.Lock()
+			bc.calls = nil
+			bc.mu.Unlock()
+		}
+		time.Sleep(25 * time.Millisecond)
+		body := c.signed(who, 9, "vipnode_update", pool.UpdateRequest{BlockNumber: 1, PeerInfo: []ethnode.PeerInfo{{ID: host.id}}})
+		conn, err := net.Dial("tcp", c.addr)
+		if err != nil {
+			return nil, "err transport", false
+		}
+		fmt.Fprintf(conn, "POST / HTTP/1.1\r\nHost: %s\r\nContent-Type: application/json\r\nContent-Length: %d\r\n\r\n%s", c.addr, len(body), body)
+		conn.Close()
+		// give the pool the time to handle the request and make its calls
+		var disc []string
+		for i := 0; i < 40; i++ {
+			time.Sleep(25 * time.Millisecond)
+			disc = disc[:0]
+			for name, bc := range c.conns {
+				bc.mu.Lock()
+				for _, meth := range bc.calls {
+					if meth == "vipnode_disconnect" {
+						disc = append(disc, name)
+					}
+				}
+				bc.mu.Unlock()
+			}
+			if len(disc) > 0 && i >= 4 {
+				break
+			}
+		}
+		sort.Strings(disc)
+		return nil, "sent disc=" + strings.Join(disc, ","), true
+	case "hoststray":
+		// hoststray <conn>: the host sends a reply nobody asked for (a late or duplicated answer): it changes nothing,
+		// in particular the pool still notices when this connection ends
+		if bc := c.conns[t[1]]; bc != nil {
+			bc.ws.WriteMessage(websocket.TextMessage, []byte(`{"jsonrpc":"2.0","id":987654,"result":null}`))
+			time.Sleep(20 * time.Millisecond)
+		}
+		return nil, "ok", false
+	case "hosthttp":
+		// hosthttp <host>: a full node tries to register over plain HTTP (no connection the pool could call it back
+		// on): it gets an error reply, and the pool goes on serving everybody else
+		who := identByName[t[1]]
+		m, err := c.post(c.signed(who, 8, "vipnode_connect", pool.ConnectRequest{NodeInfo: ethnode.UserAgent{Kind: ethnode.Geth, IsFullNode: true},
+			NodeURI: "enode://" + who.id + "@1.2.3.9:30303"}))
+		if err != nil {
+			return nil, "no-reply", true
+		}
+		if m["error"] != nil {
+			return nil, "err refused", false
 		}
 		return nil, "ok", true
 	case "kbill":
@@ -407,7 +466,22 @@ func (c *poolBinComp) genOverdraw(r *rand.Rand, idx int, emit func(string)) {
 	}
 }
 
+// genHangup: a client that is cut off by a keep-alive whose reply it does not wait for
+func (c *poolBinComp) genHangup(r *rand.Rand, idx int, emit func(string)) {
+	emit(fmt.Sprintf("start min=%s price=%s max=0", []string{"0", "0_wei", "off", "0"}[(idx/12)%4], pick(r, []string{"100_gwei", "1_ether"})))
+	emit("hostconn c0 n0")
+	if r.Intn(2) == 0 {
+		emit("hostconn c1 n1")
+	}
+	emit("client n6")
+	emit("kbillhangup n6 n0")
+}
+
 func (c *poolBinComp) Gen(r *rand.Rand, idx int, emit func(string)) {
+	if idx%12 == 9 {
+		c.genHangup(r, idx, emit)
+		return
+	}
 	if idx%6 == 5 {
 		c.genOverdraw(r, idx, emit)
 		return
@@ -427,6 +501,9 @@ func (c *poolBinComp) Gen(r *rand.Rand, idx int, emit func(string)) {
 		case 5:
 			emit(fmt.Sprintf("hostmode c%d %s", r.Intn(nh), pick(r, []string{"refuse", "refuse", "ack"})))
 		case 0, 1:
+			if r.Intn(3) == 0 {
+				emit(fmt.Sprintf("hoststray c%d", r.Intn(nh)))
+			}
 			emit(fmt.Sprintf("closeconn c%d %s", r.Intn(nh+1), hows[(idx+i)%len(hows)]))
 		case 2:
 			// a host comes back on a new connection (or moves while the old one is still open)
@@ -435,6 +512,13 @@ func (c *poolBinComp) Gen(r *rand.Rand, idx int, emit func(string)) {
 			emit("peer")
 		}
 	}
-	emit(fmt.Sprintf("closeconn c%d %s", r.Intn(nh), hows[idx%len(hows)]))
+	if idx%4 == 2 {
+		emit(fmt.Sprintf("hosthttp n%d", nh+1))
+	}
+	last := r.Intn(nh)
+	if idx%3 == 1 {
+		emit(fmt.Sprintf("hoststray c%d", last))
+	}
+	emit(fmt.Sprintf("closeconn c%d %s", last, hows[idx%len(hows)]))
 	emit("peer")
 }
